@@ -216,7 +216,7 @@ theorem pendingDiffName_reachC (cfg : Cfg) {m0 m : M} (h : ReachC m0 m) :
   split
   · exact ⟨h, rfl⟩
   · split
-    · exact ⟨h.emit.writeGeneric cfg _ _ (by simp), by simp⟩
+    · exact ⟨(h.emit.writeGeneric cfg _ _ (by simp)).upd rfl rfl rfl rfl rfl rfl, by simp⟩
     · split
       · exact ⟨h, rfl⟩
       · split
